@@ -40,8 +40,8 @@ CLAIMED = {
  "C02": ("Contracts on unification and the term representations: Env.unify satisfies the defining equations of the algorithm case by case (both sides dereferenced first; a variable unifies with itself without binding; the occurs check fails exactly when contains says so; otherwise exactly that variable is bound to the other side and nothing else changes; atomic terms unify iff identical; different principal functor or arity fails; the variable-on-the-right cases are the mirrored call; arguments are unified pairwise left to right in the threaded environment, failing at the first failing pair); every failing case that has bound nothing returns the caller's environment; contains satisfies the occurs-check equations (looks through bound variables); the environment of a failed unification is never read (data-flow obligation on Unify/UnifyWithOccursCheck/SubsumesTerm/VM.exec); Env nodes are never written after publication; the binding store is a search tree verified against an abstract map view: lookup returns the view, insert/bind update it at exactly one key, balance preserves every lookup and the order; newEnvKey is injective; list, charList, codeList and partial expose the same '.'/2 cells (head, tail, end of list) and charList/codeList stay non-empty; NewAtom of a one-character name is that character's atom; VM.exec decides head arguments through Env.Unify.",
          "Fragment: that the equations compute a most general unifier, symmetry, idempotence and termination are meta-theorems about the equations and are not mechanised; the abstract view of the binding tree is introduced by definition at publication (assumptions listed; justified by the structural immutability obligation), colours and depth are not specified; Compound.Arg/Arity/Functor of a term are deterministic abstract functions (terms are not mutated during a unification: assumed); exec's construction of the skeletons for compound head arguments is pinned only as 'goes through Env.Unify'.",
          "contract-based deductive verification: WP over go/ssa with abstract map/term functions, recursive calls by contract, structural data-flow obligations; SMT", "DESIGN.md 5 C02"),
- "C14": ("Ownership discipline of every package-level variable of both packages (235 variables), decided on the SSA of all functions: write-once (stored only by package init, and nothing reachable through it is written elsewhere), atomic (varCounter: only through sync/atomic, every update a single read-modify-write), guarded-by (atomTable: every read under Lock/RLock, every write under Lock, unlock only by defer, and a write's critical section contains the reads it decides on), test-hook. So two interpreters share no mutable memory except the two synchronised globals.",
-         "Fragment: a happens-before argument (the family has no thread model), races inside one interpreter between the query goroutine and its consumer (Solutions.err), value flow across function boundaries (a map reachable from a global passed to a callee that mutates it is not followed), and the stores of Force/child to shared promise objects are not decided here.",
+ "C14": ("Ownership discipline of every package-level variable of both packages (235 variables), decided on the SSA of all functions: write-once (stored only by package init, and nothing reachable through it is written elsewhere, also not by a callee that receives it through a parameter or an interface call: interprocedural summaries), atomic (varCounter: only through sync/atomic, every update a single read-modify-write whose result is the value used), guarded-by (atomTable: every read under Lock/RLock, every write under Lock, unlock only by defer, and a write's critical section contains the reads it decides on), test-hook. So two interpreters share no mutable memory except the two synchronised globals.",
+         "Fragment: a happens-before argument (the family has no thread model), races inside one interpreter between the query goroutine and its consumer (Solutions.err), value flow through the heap (a pointer to shared memory stored in a structure and written through later is not followed), and the stores of Force/child to shared promise objects are not decided here.",
          "contract-based verification: frame/ownership obligations decided structurally on go/ssa (no solver)", "DESIGN.md 5 C14"),
  "C08": ("Contracts on the standard order: Integer/Float/Atom/Variable.Compare return -1/0/1, order another type by the rank Var < Float < Integer < Atom < other atomic < Compound and the same type by the mathematical difference (no overflow), the IEEE order, the text order (strings.Compare), the variable number; each compares the resolved term; CompareCompound orders by arity, then name, then the first argument whose comparison is non-zero (loop invariant: all earlier arguments compare equal), 0 exactly when all compare equal; keysort/2 goes through sort.SliceStable.",
          "Fragment: the order laws themselves (antisymmetry, transitivity, totality over compounds) follow from these clauses by induction over terms, which is not mechanised; sort/2's and setof/3's sort+dedupe (Env.set) and representation independence for partial/char/code lists are not decided. Term.Compare and Compound.Arity/Functor/Arg are deterministic abstract functions that the concrete methods define (assumed, listed); Env.Resolve is trusted.",
